@@ -150,6 +150,16 @@ class Report:
             "notes": self.notes,
             "exhaustive": True,
         }
+        try:
+            from .cfg import STATS
+
+            cov["cfgs_built"] = STATS["cfgs_built"]
+            cov["cfg_nodes"] = STATS["cfg_nodes"]
+            cov["cfg_edges"] = STATS["cfg_edges"]
+            cov["functions_with_cfg"] = sorted(f"{n}@{l}" for n, l in STATS["functions"])
+        except Exception:  # pragma: no cover
+            pass
+        cov["functions_in_instances"] = sorted({i.function for i in obligations if i.function})
         cov.update(self.extra)
         if selftest is not None:
             cov["selftest"] = selftest
